@@ -9,6 +9,7 @@ package task
 import (
 	"github.com/AliceO2Group/Control/common/event"
 	"github.com/AliceO2Group/Control/core/controlcommands"
+	"github.com/AliceO2Group/Control/core/task/sm"
 )
 
 type VerifWorld struct {
@@ -47,3 +48,11 @@ func (v *VerifWorld) Kills(taskId string) int { return v.w.caller.killed(taskId)
 func (v *VerifWorld) Owned(t *Task) bool { return t.GetParent() != nil }
 
 func (v *VerifWorld) InRoster(t *Task) bool { return v.M.GetTask(t.GetTaskId()) == t }
+
+// AgentLost puts t in the condition HandleAgentFailed leaves it in: agent id blanked (so no longer locked),
+// ERROR and INACTIVE, still attached to its role.
+func (v *VerifWorld) AgentLost(t *Task) {
+	t.agentId = ""
+	t.state = sm.ERROR
+	t.status = INACTIVE
+}
